@@ -214,7 +214,9 @@ namespace pika::threads::coroutines::detail {
             {
                 [[maybe_unused]] reset_on_exit on_exit{*this};
 
+                PIKA_VERIF_POST("co.enter", id_.get(), 1, 0);
                 result = f_(arg);    // invoke wrapped function
+                PIKA_VERIF_POST("co.return", id_.get(), static_cast<int>(result.first), 1);
 
                 // we always have to run to completion
                 PIKA_ASSERT(result.first == threads::detail::thread_schedule_state::terminated);
